@@ -21,7 +21,7 @@ STATEMENT: {p['statement']}
 QUANTIFIED OVER: {p['quantifier']['text']}
 CODE INVOLVED: {', '.join(p['anchors']['files'])}
 
-{("Changes of the following kinds were already tried by others — do something DIFFERENT in mechanism and location: " + " | ".join(a for a in avoid if a) + chr(10) + chr(10)) if avoid else ""}{("THIS ROUND the two changes must be of these kinds (pick two different kinds): (i) two cooperating sites that each look correct alone; (ii) state carried across calls — a module-level or instance-level cache, a mutable default argument, a shared object; (iii) behaviour that differs only on a fault / exception / early-exit path; (iv) a boundary size (0, 1, exactly n, first/last element) or an ordering assumption (set / dict iteration order). Avoid plain single-site wrong-constant or wrong-operator edits." + chr(10) + chr(10)) if rnd == "r3" else ""}Your task: produce TWO different small changes to the library source (files under {wt}/pdtable/, never tests), each of which makes the property FALSE for some inputs, while:
+{("Changes of the following kinds were already tried by others — do something DIFFERENT in mechanism and location: " + " | ".join(a for a in avoid if a) + chr(10) + chr(10)) if avoid else ""}{("THIS ROUND the two changes must be of these kinds (pick two different kinds): (i) two cooperating sites that each look correct alone; (ii) state carried across calls — a module-level or instance-level cache, a mutable default argument, a shared object; (iii) behaviour that differs only on a fault / exception / early-exit path; (iv) a boundary size (0, 1, exactly n, first/last element) or an ordering assumption (set / dict iteration order). Avoid plain single-site wrong-constant or wrong-operator edits." + chr(10) + chr(10)) if rnd == "r3" else ""}{("THIS ROUND the two changes must be of these kinds (pick two different kinds): (v) a change in a helper, class or module that the property's code CALLS but that is not listed under CODE INVOLVED (e.g. utils, table_origin, _represent, auxiliary, units, frame / proxy helpers, the issue tracker) — the bug surfaces through the property; (vi) an interaction between two public operations where each alone still behaves (write then read, read then bundle, copy then edit, load then tree, convert then write, equals after edit, a second call with other arguments); (vii) a data-dependent, rarely hit path: unusual but legal values (negative zero, huge / tiny numbers, NaT, non-ASCII or combining characters, very long strings, duplicate values, empty containers, exotic dtypes such as category / Int64 / float32 / timezone-aware datetimes, Path versus str arguments); (viii) a default argument or configuration path that no test passes (keyword defaults, module-level settings such as pdtable.CSV_SEP, the current working directory, an issue tracker or fixer given as class versus instance). Avoid plain single-site wrong-constant or wrong-operator edits and anything a one-line smoke test shows." + chr(10) + chr(10)) if rnd == "r4" else ""}Your task: produce TWO different small changes to the library source (files under {wt}/pdtable/, never tests), each of which makes the property FALSE for some inputs, while:
  (a) the package still imports and compiles;
  (b) every test that passes now still passes. Before changing anything record the baseline: `cd {wt} && PYTHONPATH={wt} /venv/bin/python -m pytest -q -p no:cacheprovider --timeout=900 --continue-on-collection-errors -rA 2>&1 | grep -E "^(PASSED|FAILED|ERROR)" | sort > /tmp/seed-{pid}{rnd}-base.txt` (about 163 pass, a few fail for unrelated reasons); after each change the set of PASSED lines must be a superset of the baseline's;
  (c) the bug needs something specific to manifest — an unusual but legitimate input, a particular multi-step sequence of operations, a crash/fault at a particular point, or two cooperating sites that each look fine alone — NOT something ordinary use or a casual smoke test would expose at once. Prefer subtle, realistic mistakes (an off-by-one at a boundary, a condition that is wrong only for an edge shape, a missing copy, a wrong default, state carried across calls, an early return) over blunt ones.
